@@ -102,6 +102,10 @@ def finite_pt(p):
         return False
 
 
+def name_of(seg):
+    return type(seg).__name__
+
+
 def usable(svg, p, out, d, tags):
     """oracle 4"""
     segs = list(p)
@@ -127,6 +131,13 @@ def usable(svg, p, out, d, tags):
         for q in (seg.start, seg.end):
             if q is not None:
                 mag = max(mag, abs(q.x), abs(q.y))
+        # the drawing is as large as what it draws, not as its end points: an arc of radius 4e53 between two points a few
+        # units apart (radii scaled up by F.6.6) has a length of 1e54
+        if name_of(seg) == "Arc":
+            try:
+                mag = max(mag, abs(float(seg.rx)), abs(float(seg.ry)))
+            except Exception:  # noqa
+                pass
     ops = [
         ("d()", lambda: p.d()),
         ("d(relative=True)", lambda: p.d(relative=True)),
